@@ -149,72 +149,77 @@ Definition read_table (fuel : nat) (s : bytes) : pres table :=
 
 (* ------------------------------------------------------------------ method arguments (spec091.go) *)
 (* (kind, exported): the Go struct field is exported, i.e. visible in what is reported *)
-Definition method_sig (cls meth : N) : option (list (akind * bool)) :=
-  match cls, meth with
-  | 10, 10 => Some [(KOctet, true); (KOctet, true); (KTable, true); (KLongStr, true); (KLongStr, true)]
-  | 10, 11 => Some [(KTable, true); (KShortStr, true); (KLongStr, true); (KShortStr, true)]
-  | 10, 20 => Some [(KLongStr, true)]
-  | 10, 21 => Some [(KLongStr, true)]
-  | 10, 30 => Some [(KShort, true); (KLong, true); (KShort, true)]
-  | 10, 31 => Some [(KShort, true); (KLong, true); (KShort, true)]
-  | 10, 40 => Some [(KShortStr, true); (KShortStr, false); (KBit, false)]
-  | 10, 41 => Some [(KShortStr, false)]
-  | 10, 50 => Some [(KShort, true); (KShortStr, true); (KShort, true); (KShort, true)]
-  | 10, 51 => Some []
-  | 10, 60 => Some [(KShortStr, true)]
-  | 10, 61 => Some []
-  | 20, 10 => Some [(KShortStr, false)]
-  | 20, 11 => Some [(KLongStr, false)]
-  | 20, 20 => Some [(KBit, true)]
-  | 20, 21 => Some [(KBit, true)]
-  | 20, 40 => Some [(KShort, true); (KShortStr, true); (KShort, true); (KShort, true)]
-  | 20, 41 => Some []
-  | 40, 10 => Some [(KShort, false); (KShortStr, true); (KShortStr, true); (KBit, true); (KBit, true); (KBit, true); (KBit, true); (KBit, true); (KTable, true)]
-  | 40, 11 => Some []
-  | 40, 20 => Some [(KShort, false); (KShortStr, true); (KBit, true); (KBit, true)]
-  | 40, 21 => Some []
-  | 40, 30 => Some [(KShort, false); (KShortStr, true); (KShortStr, true); (KShortStr, true); (KBit, true); (KTable, true)]
-  | 40, 31 => Some []
-  | 40, 40 => Some [(KShort, false); (KShortStr, true); (KShortStr, true); (KShortStr, true); (KBit, true); (KTable, true)]
-  | 40, 51 => Some []
-  | 50, 10 => Some [(KShort, false); (KShortStr, true); (KBit, true); (KBit, true); (KBit, true); (KBit, true); (KBit, true); (KTable, true)]
-  | 50, 11 => Some [(KShortStr, true); (KLong, true); (KLong, true)]
-  | 50, 20 => Some [(KShort, false); (KShortStr, true); (KShortStr, true); (KShortStr, true); (KBit, true); (KTable, true)]
-  | 50, 21 => Some []
-  | 50, 50 => Some [(KShort, false); (KShortStr, true); (KShortStr, true); (KShortStr, true); (KTable, true)]
-  | 50, 51 => Some []
-  | 50, 30 => Some [(KShort, false); (KShortStr, true); (KBit, true)]
-  | 50, 31 => Some [(KLong, true)]
-  | 50, 40 => Some [(KShort, false); (KShortStr, true); (KBit, true); (KBit, true); (KBit, true)]
-  | 50, 41 => Some [(KLong, true)]
-  | 60, 10 => Some [(KLong, true); (KShort, true); (KBit, true)]
-  | 60, 11 => Some []
-  | 60, 20 => Some [(KShort, false); (KShortStr, true); (KShortStr, true); (KBit, true); (KBit, true); (KBit, true); (KBit, true); (KTable, true)]
-  | 60, 21 => Some [(KShortStr, true)]
-  | 60, 30 => Some [(KShortStr, true); (KBit, true)]
-  | 60, 31 => Some [(KShortStr, true)]
-  | 60, 40 => Some [(KShort, false); (KShortStr, true); (KShortStr, true); (KBit, true); (KBit, true)]
-  | 60, 50 => Some [(KShort, true); (KShortStr, true); (KShortStr, true); (KShortStr, true)]
-  | 60, 60 => Some [(KShortStr, true); (KLongLong, true); (KBit, true); (KShortStr, true); (KShortStr, true)]
-  | 60, 70 => Some [(KShort, false); (KShortStr, true); (KBit, true)]
-  | 60, 71 => Some [(KLongLong, true); (KBit, true); (KShortStr, true); (KShortStr, true); (KLong, true)]
-  | 60, 72 => Some [(KShortStr, false)]
-  | 60, 80 => Some [(KLongLong, true); (KBit, true)]
-  | 60, 90 => Some [(KLongLong, true); (KBit, true)]
-  | 60, 100 => Some [(KBit, true)]
-  | 60, 110 => Some [(KBit, true)]
-  | 60, 111 => Some []
-  | 60, 120 => Some [(KLongLong, true); (KBit, true); (KBit, true)]
-  | 90, 10 => Some []
-  | 90, 11 => Some []
-  | 90, 20 => Some []
-  | 90, 21 => Some []
-  | 90, 30 => Some []
-  | 90, 31 => Some []
-  | 85, 10 => Some [(KBit, true)]
-  | 85, 11 => Some []
-  | _, _ => None
+Definition sig_table : list (N * N * list (akind * bool)) := [
+  (10, 10, [(KOctet, true); (KOctet, true); (KTable, true); (KLongStr, true); (KLongStr, true)]);
+  (10, 11, [(KTable, true); (KShortStr, true); (KLongStr, true); (KShortStr, true)]);
+  (10, 20, [(KLongStr, true)]);
+  (10, 21, [(KLongStr, true)]);
+  (10, 30, [(KShort, true); (KLong, true); (KShort, true)]);
+  (10, 31, [(KShort, true); (KLong, true); (KShort, true)]);
+  (10, 40, [(KShortStr, true); (KShortStr, false); (KBit, false)]);
+  (10, 41, [(KShortStr, false)]);
+  (10, 50, [(KShort, true); (KShortStr, true); (KShort, true); (KShort, true)]);
+  (10, 51, []);
+  (10, 60, [(KShortStr, true)]);
+  (10, 61, []);
+  (20, 10, [(KShortStr, false)]);
+  (20, 11, [(KLongStr, false)]);
+  (20, 20, [(KBit, true)]);
+  (20, 21, [(KBit, true)]);
+  (20, 40, [(KShort, true); (KShortStr, true); (KShort, true); (KShort, true)]);
+  (20, 41, []);
+  (40, 10, [(KShort, false); (KShortStr, true); (KShortStr, true); (KBit, true); (KBit, true); (KBit, true); (KBit, true); (KBit, true); (KTable, true)]);
+  (40, 11, []);
+  (40, 20, [(KShort, false); (KShortStr, true); (KBit, true); (KBit, true)]);
+  (40, 21, []);
+  (40, 30, [(KShort, false); (KShortStr, true); (KShortStr, true); (KShortStr, true); (KBit, true); (KTable, true)]);
+  (40, 31, []);
+  (40, 40, [(KShort, false); (KShortStr, true); (KShortStr, true); (KShortStr, true); (KBit, true); (KTable, true)]);
+  (40, 51, []);
+  (50, 10, [(KShort, false); (KShortStr, true); (KBit, true); (KBit, true); (KBit, true); (KBit, true); (KBit, true); (KTable, true)]);
+  (50, 11, [(KShortStr, true); (KLong, true); (KLong, true)]);
+  (50, 20, [(KShort, false); (KShortStr, true); (KShortStr, true); (KShortStr, true); (KBit, true); (KTable, true)]);
+  (50, 21, []);
+  (50, 50, [(KShort, false); (KShortStr, true); (KShortStr, true); (KShortStr, true); (KTable, true)]);
+  (50, 51, []);
+  (50, 30, [(KShort, false); (KShortStr, true); (KBit, true)]);
+  (50, 31, [(KLong, true)]);
+  (50, 40, [(KShort, false); (KShortStr, true); (KBit, true); (KBit, true); (KBit, true)]);
+  (50, 41, [(KLong, true)]);
+  (60, 10, [(KLong, true); (KShort, true); (KBit, true)]);
+  (60, 11, []);
+  (60, 20, [(KShort, false); (KShortStr, true); (KShortStr, true); (KBit, true); (KBit, true); (KBit, true); (KBit, true); (KTable, true)]);
+  (60, 21, [(KShortStr, true)]);
+  (60, 30, [(KShortStr, true); (KBit, true)]);
+  (60, 31, [(KShortStr, true)]);
+  (60, 40, [(KShort, false); (KShortStr, true); (KShortStr, true); (KBit, true); (KBit, true)]);
+  (60, 50, [(KShort, true); (KShortStr, true); (KShortStr, true); (KShortStr, true)]);
+  (60, 60, [(KShortStr, true); (KLongLong, true); (KBit, true); (KShortStr, true); (KShortStr, true)]);
+  (60, 70, [(KShort, false); (KShortStr, true); (KBit, true)]);
+  (60, 71, [(KLongLong, true); (KBit, true); (KShortStr, true); (KShortStr, true); (KLong, true)]);
+  (60, 72, [(KShortStr, false)]);
+  (60, 80, [(KLongLong, true); (KBit, true)]);
+  (60, 90, [(KLongLong, true); (KBit, true)]);
+  (60, 100, [(KBit, true)]);
+  (60, 110, [(KBit, true)]);
+  (60, 111, []);
+  (60, 120, [(KLongLong, true); (KBit, true); (KBit, true)]);
+  (90, 10, []);
+  (90, 11, []);
+  (90, 20, []);
+  (90, 21, []);
+  (90, 30, []);
+  (90, 31, []);
+  (85, 10, [(KBit, true)]);
+  (85, 11, [])].
+
+(* parseMethodFrame's switch on class and method id *)
+Fixpoint lookup_sig (cls meth : N) (l : list (N * N * list (akind * bool))) : option (list (akind * bool)) :=
+  match l with
+  | [] => None
+  | (c, m, sig) :: l' => if (cls =? c) && (meth =? m) then Some sig else lookup_sig cls meth l'
   end.
+Definition method_sig (cls meth : N) : option (list (akind * bool)) := lookup_sig cls meth sig_table.
 
 (* the generated read methods: consecutive bits share one octet read at the first of them *)
 Fixpoint read_args (fuel : nat) (ks : list akind) (bits : option (N * N)) (s : bytes) {struct ks} : pres (list arg) :=
